@@ -83,3 +83,21 @@ func init() {
 			Benign: true},
 	)
 }
+
+// Round 5 (minimal mutation-style changes): the ten that were missed at the first run, each now reported at the rule
+// that was added or extended because of it.
+func init() {
+	seed := func(prop, id, rule, construct string) variant {
+		return variant{Prop: prop, Name: "seeded-" + id + "-" + prop, Patch: "seeded/" + id + "/patch.diff", Rule: rule, Construct: construct}
+	}
+	addVariants(
+		seed("C07", "C07-r5-2", "R7.9", "value of every hexadecimal digit"),
+		seed("C02", "C02-r5-2", "R2.4b", "no value in front of RBRACE"),
+		seed("C02", "C13-r5-4", "R2.4b", "no value in front of EOF"),
+		seed("C06", "C06-r5-4", "R6.3", "trims the end of the text"),
+		seed("C10", "C10-r5-2", "R10.6", "only at a line break"),
+		seed("C10", "C10-r5-3", "R10.3", "End is the cursor position"),
+		seed("C11", "C11-r5-4", "R11.6", "advances in every iteration"),
+		seed("C15", "C15-r5-1", "R15.6", "is passed on every path behind the comment"),
+	)
+}
